@@ -280,8 +280,9 @@ pub fn do_op(ck: &CK, op: &Op) -> String {
         },
         (CK::S(c), Op::GetTtl { idx, conf }) => c.get_ttl(&mkkey(*idx, *conf)).map_or("ttl:none".into(), |d| format!("ttl:{}", ttl_str(d))),
         (CK::A(c), Op::GetTtl { idx, conf }) => c.get_ttl(&mkkey(*idx, *conf)).map_or("ttl:none".into(), |d| format!("ttl:{}", ttl_str(d))),
-        (CK::S(c), Op::Remove { idx, conf }) => ok_err(c.try_remove(&mkkey(*idx, *conf))),
-        (CK::A(c), Op::Remove { idx, conf }) => ok_err(block_on(c.try_remove(&mkkey(*idx, *conf)))),
+        // remove() and try_remove() by turns (remove() returns nothing: a panic is the only way it can fail)
+        (CK::S(c), Op::Remove { idx, conf }) => if (*idx + *conf) % 2 == 0 { c.remove(&mkkey(*idx, *conf)); "ok".into() } else { ok_err(c.try_remove(&mkkey(*idx, *conf))) },
+        (CK::A(c), Op::Remove { idx, conf }) => if (*idx + *conf) % 2 == 0 { block_on(c.remove(&mkkey(*idx, *conf))); "ok".into() } else { ok_err(block_on(c.try_remove(&mkkey(*idx, *conf)))) },
         (CK::S(c), Op::Wait) => ok_err(c.wait()),
         (CK::A(c), Op::Wait) => ok_err(block_on(c.wait())),
         (CK::S(c), Op::Clear) => ok_err(c.clear()),
@@ -379,6 +380,8 @@ pub struct Case {
     pub mon: Mon,
     last_snap: CacheSnap<u64>,
     proc_prev_at: &'static str,
+    /// the client being stepped is a remove() facing a full insert buffer
+    rem_full: bool,
     tick_since_quiescent: bool,
     /// C19: results, callbacks (as a sorted multiset per quiescent interval) and quiescent snapshots
     pub pair_log: Arc<std::sync::Mutex<Vec<String>>>,
@@ -478,6 +481,7 @@ impl Case {
             mon: Mon::new(case_id, cfg.clone(), flags, item_size),
             last_snap: first,
             proc_prev_at: "proc:loop",
+            rem_full: false,
             tick_since_quiescent: false,
             pair_log: Arc::new(std::sync::Mutex::new(Vec::new())),
             pair_cbs: Vec::new(),
@@ -644,6 +648,7 @@ impl Case {
     fn after_client_segment(&mut self, t: &mut Trace, a: usize, line: &str, from: Option<&'static str>, seen: u64) {
         let (timeout, kind) = match from {
             Some(p) if is_waitlike(p, self.cfg.is_async) => (WAITLIKE, 1),
+            Some("rem:before_send") if self.rem_full => (OFFER, 1),
             Some(p) if is_offer(p, self.cfg.is_async) => (OFFER, 2),
             _ => (long(), 0),
         };
@@ -652,6 +657,22 @@ impl Case {
             (Arrival::Blocked, 1) => {
                 // entering a blocking call is not an event; its return will be logged
                 self.note_client_arrival(a, &arr, from);
+                if from == Some("rem:before_send") {
+                    // the sender is parked inside the send: nobody but the processor moves until it has
+                    // made room, so that who gets the free slot is not a race (see step_proc)
+                    for _ in 0..200 {
+                        if self.hung || self.cstate[a] != CState::Blocked("rem:before_send") {
+                            break;
+                        }
+                        if !self.proc_enabled() {
+                            self.hung = true;
+                            self.cstate[a] = CState::Blocked("HUNG");
+                            self.log_step(t, line, "HUNG", "-");
+                            break;
+                        }
+                        self.step_proc(t);
+                    }
+                }
             }
             (Arrival::Blocked, 2) => {
                 self.note_client_arrival(a, &arr, from);
@@ -709,8 +730,16 @@ impl Case {
             CState::At(p) => p,
             _ => panic!("client {} is not at a yield point", a),
         };
+        self.rem_full = from == "rem:before_send" && self.rem_would_block();
         let seen = self.sched.grant(a as Actor);
         self.after_client_segment(t, a, &format!("cl {}", a), Some(from), seen);
+        self.rem_full = false;
+    }
+
+    /// a remove() about to send its Delete marker would have to wait: the buffer is full and the
+    /// processor (the receiver) is still there
+    fn rem_would_block(&self) -> bool {
+        !self.proc_exited && snapshot(&self.ck).buf_len >= self.cfg.buf_cap
     }
 
     /// the yield point the processor reached by its last step
@@ -791,7 +820,36 @@ impl Case {
                 "HUNG"
             }
         };
-        self.log_step(t, &format!("pr {} {} {}{}", arm, tick_key, n_or, oracle), at, "-");
+        // a remove() parked inside its send comes back by itself as soon as this step has made room
+        // (or the processor has exited and dropped the receiver): the two are observed together
+        let waiting = self.cstate.iter().position(|c| *c == CState::Blocked("rem:before_send"));
+        let mut joined = false;
+        if let (Some(a), true) = (waiting, at != "HUNG") {
+            if self.proc_exited || arm == "item" || arm == "clear" || arm == "stop" {
+                let deadline = Instant::now() + long();
+                loop {
+                    if let Status::Finished(r) = self.sched.status(a as Actor) {
+                        self.cstate[a] = CState::Idle;
+                        self.log_step(t, &format!("prcl {} {} {} {}{}", a, arm, tick_key, n_or, oracle), at, &r);
+                        // the client's result is an operation result too
+                        let now = verif::clock::now_ns();
+                        let snap = self.last_snap.clone();
+                        self.mon.op_finished(a, &r, now, &snap, &snap, false);
+                        joined = true;
+                        break;
+                    }
+                    if Instant::now() >= deadline {
+                        self.hung = true;
+                        self.cstate[a] = CState::Blocked("HUNG");
+                        break;
+                    }
+                    std::thread::sleep(Duration::from_micros(50));
+                }
+            }
+        }
+        if !joined {
+            self.log_step(t, &format!("pr {} {} {}{}", arm, tick_key, n_or, oracle), at, "-");
+        }
         self.proc_prev_at = match &arr {
             Arrival::At(p) => *p,
             _ => "HUNG",
@@ -848,9 +906,13 @@ impl Case {
         let mut v = Vec::new();
         for (a, s) in self.cstate.iter().enumerate() {
             if let CState::At(p) = s {
-                // the async remove awaits room in the insert buffer: step it only when there is room,
-                // so that the send itself never happens behind the scheduler's back
-                if self.cfg.is_async && *p == "rem:before_send" && !self.proc_exited && snapshot(&self.ck).buf_len >= self.cfg.buf_cap {
+                // remove() waits for room in the insert buffer: stepping it with a full buffer parks it
+                // inside the send (see after_client_segment / step_proc); one such sender at a time,
+                // so that who gets the next free slot is never a race
+                if *p == "rem:before_send" && self.rem_would_block()
+                    && (self.clear_pending > 0 || self.stop_offered || self.cstate.iter().any(|c| *c == CState::Blocked("rem:before_send")))
+                {
+                    // (a drain for clear / stop would race with the parked sender)
                     continue;
                 }
                 v.push(a as Actor);
